@@ -29,7 +29,7 @@ def expected_steps(ref, op):
         return None, "no t_max and no inputs"
     lens = set(len(a) for lst in ref.externals.values() for _, a in lst)
     if steps is None and len(lens) > 1:
-        return None, "unspec: inputs of different lengths without t_max"
+        return None, "inputs of different lengths without t_max"  # refused (the scan cannot stack them): nothing may be left behind
     n = steps if steps is not None else L
     if steps is not None:
         for k, lst in ref.externals.items():
